@@ -99,3 +99,41 @@ def stable(detail):
     d = re.sub(r'0x[0-9a-f]+', '0x', d)
     d = re.sub(r'==\d+==', '', d)
     return d.strip()[:100]
+
+
+def valgrind_batch(exe, runner, cases, d, tag, flags):
+    """runs the (non-sanitizer) harness under valgrind memcheck on `cases`; returns list of (case, headline) for inputs whose
+    processing reads an uninitialised value or touches invalid memory.  Bisects a failing batch down to single inputs."""
+    import shutil
+    if shutil.which("valgrind") is None:
+        return None
+    found = []
+
+    def run(batch, sub):
+        cf = os.path.join(d, "%s.%s.cases" % (tag, sub)); of = os.path.join(d, "%s.%s.out" % (tag, sub)); lf = os.path.join(d, "%s.%s.vg" % (tag, sub))
+        with open(cf, "w") as f:
+            for c in batch:
+                rec = {'id': c['id'], 'src': c['src']}
+                if 'input' in c:
+                    rec['input'] = ""
+                f.write(json.dumps(rec, separators=(',', ':')) + "\n")
+        sc = os.path.join(d, "%s.vgscratch" % tag); os.makedirs(sc, exist_ok=True)
+        p = vlib.sh(["valgrind", "--quiet", "--error-exitcode=9", "--log-file=" + lf, "--track-origins=no", exe, cf, of, sc, "0", "600", flags], timeout=7200)
+        log = open(lf).read() if os.path.exists(lf) else ""
+        return p.returncode == 9 or "uninitialised" in log or "Invalid read" in log or "Invalid write" in log, log
+
+    def bisect(batch, sub):
+        bad, log = run(batch, sub)
+        if not bad:
+            return
+        if len(batch) == 1:
+            head = [l for l in log.split("\n") if "uninitialised" in l or "Invalid" in l]
+            where = [l for l in log.split("\n") if ".hpp:" in l]
+            found.append((batch[0], (head[0].split("== ")[-1] if head else "memcheck error") + " @ " + (where[0].split("(")[-1].rstrip(")") if where else "?")))
+            return
+        if len(found) >= 5:
+            return
+        h = len(batch) // 2
+        bisect(batch[:h], sub + "a"); bisect(batch[h:], sub + "b")
+    bisect(cases, "r")
+    return found
